@@ -209,13 +209,15 @@ class C11(common.ModelProperty):
             reads.append({"op": "find_links", "a": a, "b": b})
             reads.append({"op": "find_links", "a": a, "b": b, "ds": True})
             reads.append({"op": "neighbors", "v": a, "unk": "nb"})
+        ambient = seams.get_flag()
         for r in reads:
-            off = st.ex.apply(dict(r))
-            seams.set_flag(True)
+            seams.set_flag(False)
             try:
+                off = st.ex.apply(dict(r))
+                seams.set_flag(True)
                 on = st.ex.apply(dict(r))
             finally:
-                seams.set_flag(False)
+                seams.set_flag(ambient)
             if on != off:
                 return engine.viol(
                     "C11/read-back-depends-on-caching:" + r["op"],
